@@ -76,6 +76,8 @@ def split_env_multi(text):
 
 
 def model_parse(decl, env, argv, mode="A"):
+    if mode == "W":
+        mode = "V"    # W builds the non-dash tokens with user_input::verbatim(): the same meaning
     ex = Expect()
     try:
         _parse(decl, env, argv, mode, ex)
